@@ -62,6 +62,9 @@ pub fn build_zone(def: &ZoneDef) -> Zone {
     }
     let mut keys = vec![];
     for (mat, flags) in &def.keys {
+        // the server publishes every signing key as `DNSKEY::from_key` (flags 257), whatever the
+        // signer was built with
+        assert_eq!(*flags, crate::keys::F_KSK, "InMemoryZoneHandler publishes flags 257 only");
         let zk = ZoneKey::new(*mat, o, *flags);
         let dnskey = DNSKEY::with_flags(*flags, zk.public.clone());
         z.add_zone_signing_key_mut(DnssecSigner::new(dnskey, mat.signing_key(), o.clone(), Duration::from_secs(SIG_SECS))).expect("add key");
